@@ -160,14 +160,14 @@ FIND_TESTS = {
             " G.placed[i][2] == %s[i][1])))" % (NODUPES, ALLK('_i'), ALLK('_i')),
             PLACED_OK, INJ, KEYS_USED, FRESH,
         ],
-        '#loop2': [
+        '#loop2': {'scratch': ['suite'], 'inv': [
             "implies(%s, len(G.placed) == len(%s) + _i2)" % (NODUPES, ALLK('_i1')),
             "implies(%s, forall(i, Int, implies(0 <= i and i < len(G.placed), G.placed[i][1] == %s[i][0] and"
             " G.placed[i][2] == %s[i][1])))" % (NODUPES, ALLK('_i1 + 1'), ALLK('_i1 + 1')),
             PLACED_OK, INJ, KEYS_USED, FRESH,
             "_it2 == FLAT(found_suites[_i1], 1, UnitTestsRef(), options, test_accept)",
             "0 <= _i1 and _i1 < len(found_suites)",
-        ],
+        ]},
     },
     'rules': {
         'remove_stale_bytecode': 'NOEFFECT',          # under contract in the C15 check
